@@ -426,3 +426,15 @@ _ADDENDA = {
 }
 for _k, _t in _ADDENDA.items():
     PROPS[_k]["level_text"] += " " + _t
+
+_ADDENDA3 = {
+    "C01": "Third round: every pair with two param routes is also run with the params of the second route renamed (`:q`).",
+    "C02": "Third round: a refusal must declare its length (Content-Length or chunked coding).",
+    "C05": "Third round: GET requests carrying a payload (one looking like a request); Connection: close removed from the request by a fang before the handler runs.",
+    "C06": "Third round: a GET carrying a payload in the stream menu (11 requests, 132 streams).",
+    "C10": "Third round: a 70-character boundary.",
+    "C15": "Third round: routes capturing three params (`:p`,`:q`,`:r`); the `[BasicAuth; N]` entry point as root / child fang.",
+    "C19": "Third round: one tree holding a file of every one of the 16 supported extensions.",
+}
+for _k, _t in _ADDENDA3.items():
+    PROPS[_k]["level_text"] += " " + _t
